@@ -258,6 +258,8 @@ def rand_node(r: random.Random, depth: int):
         return mk('p1', y=y, st='sz')
     if c < 0.96:
         return mk('p2', y=r.randbytes(r.choice([0, 1, 256, 1000])), st='sz')
+    if c < 0.965 and depth == 0:
+        return mk('macrop', r.randrange(10 ** 6), vs=[rand_val(r, allow_s=False) for _ in range(r.randrange(1, 4))])
     if c < 0.98:
         name = ''.join(r.choice('abkz09') for _ in range(r.randrange(1, 4))).encode()
         k = r.choice(['vset', 'vvals', 'vload', 'vsize'])
@@ -343,6 +345,11 @@ def toks(x) -> list:
         return ['@#' + bytes(x['y']).decode()]
     if n == 'macro':
         return ['!=', f"mm{x['a']}", '[', ']', '{'] + body(x['b']) + ['}', f"!mm{x['a']}", '[', ']']
+    if n == 'macrop':
+        out = ['!=', f"mp{x['a']}", '[', 'a', ']', '{', 'OP_PUSH', 'a', 'OP_TRUE', '}']
+        for v in x['vs']:
+            out += [f"!mp{x['a']}", '[', val_tok(v), ']']
+        return out
     if n == 'ct':
         return ['OP_PUSH', '~', '{'] + body(x['b']) + ['}']
     if n == 'cmt':
